@@ -18,6 +18,9 @@
  *   TSESS tid time                -> R <sidhex|->         find_task_session
  *   RESOLVE tid time addr         -> R <namehex|-> <symaddr> <symsize> <sidhex|-> <maphex|->
  *   DLSYM sidhex time addr        -> R <namehex|-> <symaddr> <symsize>
+ *   ELFDYN file adj offset        -> T n / ...            load_elf_dynsymtab(file, offset, adj ? SYMTAB_FL_ADJ_OFFSET : 0)
+ *   ELFMOD file                   -> T n / ...            load_module_symtab (ELF symtab + dynsym merged, ADJ_OFFSET,
+ *                                                         as record does before it writes the .sym file); becomes the current table
  *   CLOSE                         -> R 0
  * numbers are decimal (u64); strings are hex-encoded ("-" = empty / NULL).
  */
@@ -68,12 +71,19 @@ static void puthexn(const char *s, size_t n)
 }
 
 static struct uftrace_symtab cur;
+static int cur_borrowed;
 static struct uftrace_session_link link_;
 static int opened;
 
 static void free_cur(void)
 {
 	size_t i;
+	if (cur_borrowed) {
+		cur_borrowed = 0;
+		memset(&cur, 0, sizeof(cur));
+		unload_module_symtabs();
+		return;
+	}
 	for (i = 0; i < cur.nr_sym; i++)
 		free(cur.sym[i].name);
 	free(cur.sym);
@@ -263,6 +273,36 @@ int main(int argc, char **argv)
 			printf("R ");
 			print_sym(s ? session_find_dlsym(s, a, b) : NULL);
 			printf("\n");
+		}
+		else if (sscanf(line, "ELFDYN %8000s %llu %llu", s1, &a, &b) == 3) {
+			struct uftrace_symtab t = {};
+			struct uftrace_elf_data elf;
+			size_t i;
+			if (elf_init(s1, &elf) < 0) {
+				printf("T 0\n");
+			}
+			else {
+				load_elf_dynsymtab(&t, &elf, (unsigned long)b, a ? SYMTAB_FL_ADJ_OFFSET : 0);
+				elf_finish(&elf);
+				print_tab(&t);
+				for (i = 0; i < t.nr_sym; i++)
+					free(t.sym[i].name);
+				free(t.sym);
+				free(t.sym_names);
+			}
+		}
+		else if (sscanf(line, "ELFMOD %8000s", s1) == 1) {
+			static struct uftrace_sym_info si;
+			struct uftrace_module *m;
+			char bid[BUILD_ID_STR_SIZE];
+			free_cur();
+			memset(&si, 0, sizeof(si));
+			si.flags = SYMTAB_FL_ADJ_OFFSET;
+			read_build_id(s1, bid, sizeof(bid));
+			m = load_module_symtab(&si, s1, bid);
+			cur = m->symtab;
+			cur_borrowed = 1;
+			print_tab(&cur);
 		}
 		else if (!strncmp(line, "CLOSE", 5)) {
 			if (opened) {
